@@ -41,6 +41,7 @@ type world struct {
 	arrived int
 	fails   []string
 	stopAt  int // tick at which Stop was called (0: never)
+	gate    int // kind "stopbacklog": tasks waiting for a gate <= this value may go on
 }
 
 func (w *world) tick() int {
@@ -158,6 +159,47 @@ func poolBody(c pcfg) func() {
 			}
 			vsched.WaitIdle()
 			w.judge(c, !c.stop)
+		case "stopbacklog":
+			// Stop while every runner is held by a parked task and the queue is full of tasks that
+			// will park as well: what was queued before the stop still has to run, and no more
+			// than N of them at once. The first N tasks wait for gate 1, the others for gate 2.
+			total := c.n + c.q + 1
+			gated := func(id string, gate int) (*task, func()) {
+				t := &task{id: id}
+				w.tasks = append(w.tasks, t)
+				return t, func() {
+					w.running++
+					if w.running > w.maxRun {
+						w.maxRun = w.running
+					}
+					t.starts = append(t.starts, w.tick())
+					vsched.Block("gate", func() bool { return w.gate >= gate })
+					w.running--
+					t.ends = append(t.ends, w.tick())
+				}
+			}
+			vsched.GoNamed("submitter0", func() {
+				for j := 0; j < total; j++ {
+					gate := 2
+					if j < c.n {
+						gate = 1
+					}
+					t, fn := gated(fmt.Sprintf("t%d", j), gate)
+					t.callSeq = w.tick()
+					tp.Go(fn)
+					t.retSeq = w.tick()
+				}
+			})
+			vsched.WaitIdle()
+			vsched.GoNamed("stopper", func() { w.stopAt = w.tick(); tp.Stop() })
+			vsched.WaitIdle()
+			w.gate = 1
+			w.tick()
+			vsched.WaitIdle()
+			w.gate = 2
+			w.tick()
+			vsched.WaitIdle()
+			w.judge(c, false)
 		case "bound":
 			// N+2 tasks that all park until the harness releases them: how many get to run at once?
 			release := false
@@ -507,6 +549,14 @@ func build(tier string) []*vkit.Scenario {
 				addPool(pcfg{n: n, q: q, custom: custom, kind: "basic", subs: 2, each: 2, panicAt: -1}, bp)
 				addPool(pcfg{n: n, q: q, custom: custom, kind: "basic", subs: 2, each: 2, panicAt: 0, stop: true}, P1)
 				addPool(pcfg{n: n, q: q, custom: custom, kind: "bound", each: n + 1, panicAt: -1}, P1)
+				if q == qs[0] {
+					// the queue holds more parked tasks than the bound when the pool is stopped
+					for _, sn := range []int{n - 2, n} {
+						for _, sq := range []int{sn + 1, sn + 3} {
+							addPool(pcfg{n: sn, q: sq, custom: custom, kind: "stopbacklog", panicAt: -1, stop: true}, P1)
+						}
+					}
+				}
 				addPool(pcfg{n: n, q: q, custom: custom, kind: "bound", each: n + 1, panicAt: -1, burst: 3}, P1)
 				if n == 3 || thorough {
 					addPool(pcfg{n: n, q: q, custom: custom, kind: "bound", each: n + 1, panicAt: -1, rounds: 2}, P1-1)
